@@ -125,6 +125,8 @@ hclosure("_check_retry_payloads", "(failed_payloads_with_errs: List[Tuple[Produc
              "retry-only-below-limit[C09]": "self._req_attempts < self._max_attempts",
              "delay-is-current-interval[C09]": "True"}},
          ensures={"no-retry-at-limit[C09]": "implies(old(self._req_attempts) >= self._max_attempts, n_events('Timer') == 0)",
+                  # a scheduled retry is followed by the re-send, and cancelling it (stop, caller) releases the timer
+                  "retry-chain-complete[C09, C19]": "implies(n_events('Timer') == 1, n_added('_do_retry') == 1 and n_added('_cancel_retry') == 1)",
                   # C19: while stopping nothing is scheduled that would transmit later (stop() fails the sends itself)
                   "no-retry-while-stopping[C19]": "implies(old(self.stopping), n_events('Timer') == 0 and n_events('ProduceRequest') == 0)",
                   "interval-grows[C09]": "implies(old(self._req_attempts) < self._max_attempts and not old(self.stopping), n_events('Timer') == 1 and "
@@ -192,7 +194,8 @@ method("_cancel_send_messages", "(%s, d: Ref_Deferred) -> None" % SELF, props=["
                                                   "req.deferred == d"])},
        checkpoints={"fire:errback#1": {
            # C19: cancelling before dispatch removes the send from the queue and ALL its messages (null ones too) from
-           # the count that is compared with the batch threshold
+           # the count that is compared with the batch threshold (the byte total runs over a filtered generator, whose element
+           # positions the executor does not relate to the list: not claimed here, exercised by producer_e2e)
            "removed-from-count-accounting[C19]": "self._waitingMsgCount == old(self._waitingMsgCount) - len(req.messages)",
            "removed-from-queue[C19]": "len(self._batch_reqs) == len(old(self._batch_reqs)) - 1"}},
        ensures={"caller-detached[C19]": "called(d)"})
